@@ -40,6 +40,8 @@ Expected(os, e) ==      \* the specification's state after the call; [os, fail]
                        IN [os |-> o3, fail |-> FALSE]
     [] e.op = "sp" -> [os |-> SPOn(os, e.h, e.n, e.a, e.b), fail |-> FALSE]
     [] e.op = "clone" -> [os |-> CloneOn(os, e.hb, e.h), fail |-> FALSE]
+    [] e.op = "setsp" -> [os |-> SetSPOn(os, e.h, e.hb, e.n, e.a, e.b), fail |-> FALSE]
+    [] e.op = "spdet" -> [os |-> os, fail |-> FALSE]      \* a detached copy is mutated and dropped
 
 Failed(cs) == LET failed == {i \in 1..Len(cs) : ~cs[i][2]} IN
               IF failed = {} THEN <<>> ELSE [i \in 1..Cardinality(failed) |-> cs[CHOOSE k \in failed : Cardinality({j \in failed : j < k}) = i - 1][1]]
@@ -67,7 +69,9 @@ Check(os, e) ==
         \A h \in live : LET r == e.objs[h].r IN CompositionG(e.objs[h].g, r.host = <<>>, r.query = <<>>, r.frag = <<>>) /\ CompositionPublicG(e.objs[h].g)>>,
     <<"C19: derived accessors disagree with the primary components", POpts # DefaultOpts \/ \A h \in live : DerivedG(e.objs[h].g)>>,     \* (the value predicates assume the default special-scheme table)
     <<"C12: after a list mutation the query is not the serialization of the list",
-        e.op # "sp" \/ e.objs[e.h].g.query = SerList(NormL(e.objs[e.h].r.params)) \/ (e.objs[e.h].g.query = <<>> /\ e.objs[e.h].r.params = <<>>)>>,
+        e.op \notin {"sp", "setsp"} \/ e.objs[e.h].g.query = SerList(NormL(e.objs[e.h].r.params)) \/ (e.objs[e.h].g.query = <<>> /\ e.objs[e.h].r.params = <<>>)>>,
+    <<"C11/C13: a detached copy of the list (SearchParams.Clone) does not hold the mutated list",
+        e.op # "spdet" \/ [i \in 1..Len(e.ret) |-> NormT(e.ret[i])] = FlatList(ListOp(os[e.h].params, e.n, e.a, e.b))>>,
     <<"C12: after SetSearch the list is not the urlencoded parse of the query",
         ~(e.op = "set" /\ e.n = "search") \/ ~e.objs[e.h].r.hassp \/ NormL(e.objs[e.h].r.params) = ParseQ(e.objs[e.h].g.query)>>,
     <<IF F21(e)
